@@ -108,6 +108,16 @@ def script_from_log(nm: Names, log, order=None):
     script, calls = [], []
     log = reorder_transfer_draws(nm, log, order)
     for e in log:
+        try:
+            _one_entry(nm, e, script, calls, Ballot)
+        except Exception:            # an unexpected call shape: the model will refuse it (EScript)
+            script.append([99, []])
+            calls.append([99])
+    return script, calls
+
+
+def _one_entry(nm, e, script, calls, Ballot):
+    if True:
         k = e["kind"]
         if k == "sample":
             pop = e["population"]
@@ -135,7 +145,7 @@ def script_from_log(nm: Names, log, order=None):
         else:
             script.append([99, []])
             calls.append([99])
-    return script, calls
+    return None
 
 
 def reorder_transfer_draws(nm, log, order=None):
